@@ -21,8 +21,9 @@ def _int(v):
 
 
 def size_obligation(case):
-    """reported tuple count (souffle/profile/Relation.h size(): non-recursive count + sum of per-iteration counts,
-    each taken from the last size event of its kind) == number of tuples held when the relation is output"""
+    """reported tuple count (souffle/profile/Relation.h size(): non-recursive count + sum of per-iteration counts; a timer
+    event carries the size DELTA of its target over the timed statement, LOG SIZE the absolute size, and the first
+    event written for a key wins) == number of tuples held when the relation is output"""
     out = {"case": case.name, "obls": [], "error": None}
     t0 = time.time()
     work = common.scratch_dir("c20")
@@ -48,10 +49,11 @@ def size_obligation(case):
                 continue
             rel = m.group(3)
             contrib = z3.If(sym.g_z3(ev["pc"]), _int(ev["size"]), z3.BitVecVal(0, 32))
+            # ProfileDatabase::writeEntry does not rewrite an existing entry: the FIRST event of a key wins
             if m.group(2) == "nonrecursive":
-                nonrec[rel] = contrib                      # last one wins (addSizeEntry overwrites)
+                nonrec.setdefault(rel, contrib)
             else:
-                rec.setdefault(rel, {})[ev["iter"]] = contrib
+                rec.setdefault(rel, {}).setdefault(ev["iter"], contrib)
         for rel in sorted(set(nonrec) | set(rec)):
             if rel not in refprog.rels or "eqrel" in refprog.rels[rel].quals or rel not in ex.rels:
                 continue
